@@ -122,6 +122,13 @@ def run(tier):
         def obs(q):
             return (q.is_complete, q.method, q.host, q.port, q.path or b'/', q.version, q.code, q.reason,
                     tuple(sorted((k, v2) for k, v2 in (q.headers or {}).items() if k != b'content-length')), q.body or b'')
+        # framing headers are part of the message: the rebuilt message may gain a Content-Length only
+        # when the original declared no framing at all (body-less message)
+        h1 = {k: v2[1] for k, v2 in (p.headers or {}).items() if k in (b'content-length', b'transfer-encoding')}
+        h2 = {k: v2[1] for k, v2 in (p2.headers or {}).items() if k in (b'content-length', b'transfer-encoding')}
+        if h1 and h1 != h2:
+            bad('parse(build(parse(y)))', 'framing_headers_changed', case, {'first': h1, 'second': h2, 'rebuilt': y2[:200]},
+                klass=m.features.get('class'), kind=m.kind, framing_case=m.features.get('framing_case'))
         if obs(p) != obs(p2):
             bad('parse(build(parse(y)))', 'not_idempotent', case, {'first': obs(p)[1:], 'second': obs(p2)[1:], 'rebuilt': y2[:200]},
                 klass=m.features.get('class'), kind=m.kind)
